@@ -15,9 +15,49 @@ type carrier struct {
 	Method string // HTTP method that carries the error response
 	Point  string // where the innermost backend fails
 	OpWrap bool   // some client method / handler on the path wraps the error with a text prefix
+	// Only names the one chain configuration in which the carrier's request sequence exists
+	// ("" = the carrier runs under every configuration).
+	Only string
+	// Head says at which levels the failing request is a HEAD although Method is not
+	// (first = the level next to the backend, outer = the level the caller talks to);
+	// Obs.C07.level_head.  nil = at no level (at every level when Method is HEAD).
+	Head func(first, outer bool) bool
+	// MaxHops, when > 0, limits the number of hops the carrier is driven through.
+	MaxHops int
+	// Big makes the backend serve a manifest above the client's in-memory threshold.
+	Big bool
 	// prep runs with the backend healthy and returns what run needs (an upload ID).
 	prep func(ctx context.Context, r ociregistry.Interface) (string, error)
 	run  func(ctx context.Context, r ociregistry.Interface, id string) error
+}
+
+// methodAt is the method of the request that carries the error at level lvl (0 = next to the
+// backend) of a call through k levels.
+func (cr *carrier) methodAt(lvl, k int) string {
+	if cr.Head != nil && cr.Head(lvl == 0, lvl == k-1) {
+		return "HEAD"
+	}
+	return cr.Method
+}
+
+// kind is "HEAD" (every level), "mixed" (some levels) or "body".
+func (cr *carrier) kind() string {
+	switch {
+	case cr.Method == "HEAD":
+		return "HEAD"
+	case cr.Head != nil:
+		return "mixed"
+	}
+	return "body"
+}
+
+func (cr *carrier) runsUnder(cfg string) bool { return cr.Only == "" || cr.Only == cfg }
+
+func (cr *carrier) hops(n int) int {
+	if cr.MaxHops > 0 && n > cr.MaxHops {
+		return cr.MaxHops
+	}
+	return n
 }
 
 const repo = "foo/bar"
@@ -76,6 +116,44 @@ func commitWrite(ctx context.Context, r ociregistry.Interface, id string) error 
 	_, err = w.Commit(blobDigest)
 	return noErr(err)
 }
+
+// resume with offset -1 (the upload-status GET succeeds), buffer a small write, Commit: one PUT.
+func infoCommit(ctx context.Context, r ociregistry.Interface, id string) error {
+	w, err := r.PushBlobChunkedResume(ctx, repo, id, -1, 0)
+	if err != nil {
+		return fmt.Errorf("harness: upload-status request failed: %v", err)
+	}
+	if _, err := w.Write(blobData); err != nil {
+		return fmt.Errorf("harness: buffered write failed: %v", err)
+	}
+	_, err = w.Commit(blobDigest)
+	return noErr(err)
+}
+
+// resume with offset -1 and a small chunk size: Write flushes with a PATCH.
+func infoPatchWrite(ctx context.Context, r ociregistry.Interface, id string) error {
+	w, err := r.PushBlobChunkedResume(ctx, repo, id, -1, 4)
+	if err != nil {
+		return fmt.Errorf("harness: upload-status request failed: %v", err)
+	}
+	_, err = w.Write([]byte("0123456789"))
+	return noErr(err)
+}
+
+func getTag(ctx context.Context, r ociregistry.Interface, _ string) error {
+	return closeReader(r.GetTag(ctx, repo, "sometag"))
+}
+
+func getBlob(ctx context.Context, r ociregistry.Interface, _ string) error {
+	return closeReader(r.GetBlob(ctx, repo, blobDigest))
+}
+
+func getBlobRange(ctx context.Context, r ociregistry.Interface, _ string) error {
+	return closeReader(r.GetBlobRange(ctx, repo, blobDigest, 1, 4))
+}
+
+func headBelowOuter(first, outer bool) bool { return !outer }
+func headAtFirst(first, outer bool) bool    { return first }
 
 var carriers = []carrier{
 	{Name: "GetBlob", Method: "GET", Point: "GetBlob", run: func(ctx context.Context, r ociregistry.Interface, _ string) error {
@@ -168,6 +246,42 @@ var carriers = []carrier{
 		_, err := ociregistry.All(r.Referrers(ctx, repo, blobDigest, ""))
 		return noErr(err)
 	}},
+	// the backend's iterator yields an item, then the error
+	{Name: "RepositoriesMid", Method: "GET", Point: "RepositoriesMid", run: func(ctx context.Context, r ociregistry.Interface, _ string) error {
+		_, err := ociregistry.All(r.Repositories(ctx, ""))
+		return noErr(err)
+	}},
+	{Name: "TagsMid", Method: "GET", Point: "TagsMid", run: func(ctx context.Context, r ociregistry.Interface, _ string) error {
+		_, err := ociregistry.All(r.Tags(ctx, repo, ""))
+		return noErr(err)
+	}},
+	{Name: "ReferrersMid", Method: "GET", Point: "ReferrersMid", run: func(ctx context.Context, r ociregistry.Interface, _ string) error {
+		_, err := ociregistry.All(r.Referrers(ctx, repo, blobDigest, ""))
+		return noErr(err)
+	}},
+	// GetBlobRange(0, -1) is GetBlob for the client; GetBlobRange(1, -1) is an open-ended range
+	{Name: "GetBlobRangeAll", Method: "GET", Point: "GetBlob", run: func(ctx context.Context, r ociregistry.Interface, _ string) error {
+		return closeReader(r.GetBlobRange(ctx, repo, blobDigest, 0, -1))
+	}},
+	{Name: "GetBlobRangeOpen", Method: "GET", Point: "GetBlobRange", run: func(ctx context.Context, r ociregistry.Interface, _ string) error {
+		return closeReader(r.GetBlobRange(ctx, repo, blobDigest, 1, -1))
+	}},
+	// the upload-status GET of PushBlobChunkedResume(-1) succeeds, the request after it fails
+	{Name: "InfoCommit", Method: "PUT", Point: "Commit", OpWrap: true, prep: startUpload, run: infoCommit},
+	{Name: "InfoPatchWrite", Method: "PATCH", Point: "Write", OpWrap: true, prep: startUpload, run: infoPatchWrite},
+
+	// ---- request sequences that only the "quirks" server configuration provokes ----
+
+	// GetTag of a manifest above the client's in-memory threshold from a server that omits the
+	// digest header: the GET succeeds, the client's follow-up HEAD reaches ResolveTag, which fails.
+	{Name: "GetTagLookup", Method: "GET", Point: "ResolveTag", Only: "quirks", Big: true, Head: headAtFirst, run: getTag},
+	// GetBlob / GetBlobRange from a server that redirects blob downloads: the handler resolves
+	// the blob first (a HEAD request at the levels below the outermost).
+	{Name: "GetBlobResolve", Method: "GET", Point: "ResolveBlob", Only: "quirks", Head: headBelowOuter, run: getBlob},
+	{Name: "GetBlobRangeResolve", Method: "GET", Point: "ResolveBlob", Only: "quirks", Head: headBelowOuter, run: getBlobRange},
+	// ... the same through one hop only: no HEAD request involved, full identity expected
+	{Name: "GetBlobResolve1", Method: "GET", Point: "ResolveBlob", Only: "quirks", MaxHops: 1, run: getBlob},
+	{Name: "GetBlobRangeResolve1", Method: "GET", Point: "ResolveBlob", Only: "quirks", MaxHops: 1, run: getBlobRange},
 }
 
 func carrierByName(name string) *carrier {
